@@ -1,5 +1,5 @@
 (* C05 - Decoding terminates with work bounded by the frame size. *)
-From MQ Require Import Model.Codec Model.Stream Proofs.StreamP Proofs.DecP Proofs.ReadP Proofs.BoundP Proofs.StepsP.
+From MQ Require Import Model.Codec Model.Stream Proofs.StreamP Proofs.DecP Proofs.ReadP Proofs.BoundP Proofs.BytesBoundP Proofs.StepsP.
 
 (* Every loop of the decoders (property loop, SUBSCRIBE/UNSUBSCRIBE
    filter loops, reason codes) is run in the model on fuel
@@ -31,6 +31,31 @@ Theorem C05_lists_bounded : forall k p0 data,
   end.
 Proof. exact unmarshal_bound. Qed.
 Print Assumptions C05_lists_bounded.
+
+(* Memory held by the result: the bytes of strings and binary data in the
+   packet's fields, its will message, its user properties and topic filters
+   (bsize, Proofs/BytesBoundP.v; the will's payload is the CONNECT's
+   willPayload - one array in the Go code - and counted once) never exceed
+   what the receiver held before plus the length of the data, whether the
+   call succeeds or fails: every byte a decoder stores is a byte of input it
+   has moved past (a repeated property replaces the earlier value; the filter
+   appended on the way out of a failing loop is empty). For every packet
+   type, receiver state and byte string. *)
+Theorem C05_bytes_bounded : forall k p0 data,
+  match unmarshal k p0 data with
+  | UOk p | UErr _ p => (bsize p <= bsize p0 + length data)%nat
+  | _ => True
+  end.
+Proof. exact unmarshal_bytes_bound. Qed.
+Print Assumptions C05_bytes_bounded.
+
+Example C05_bytes_example :
+  bsize (ctor KConnect) = 4%nat /\
+  match unmarshal KPublish zero_pkt [x00; x03; x61; x2f; x62; x00; x68; x69] with
+  | UOk p => bsize p = 5%nat
+  | _ => False
+  end.
+Proof. vm_compute. split; reflexivity. Qed.
 
 (* Work: the number of buffer.get calls (each decodes one field, in time
    proportional to the bytes it consumes) that UnmarshalBinary makes is at
